@@ -1,1 +1,13 @@
-fn main() {}
+mod c10;
+mod model;
+mod space;
+fn main() {
+    let ctx = vcore::Ctx::from_args();
+    match ctx.prop.as_str() {
+        "C10" => c10::run(&ctx),
+        other => {
+            eprintln!("MACHINERY: vk-ord does not serve property {other:?}");
+            std::process::exit(2)
+        }
+    }
+}
